@@ -56,6 +56,9 @@ def check_function(P, R, key, rule="OPT"):
             if d:
                 R.violation(rule + ".O1", key, src(node)[:70], f"`{src(d[0])[:40]}` uses `{name}` in the arm taken when `{name}` is None: the absent factor is dereferenced (and the present one is ignored)", node.lineno)
                 continue
+            if isinstance(none_arm, ast.Name) and none_arm.id == name and not (isinstance(some_arm, ast.Name) and some_arm.id == name):
+                R.violation(rule + ".O2", key, src(node)[:70], f"when `{name}` is None the selection yields `{name}` itself (None) and when it is given it is replaced by `{src(some_arm)[:30]}`: the default and the supplied value are swapped", node.lineno)
+                continue
             if _neutral(none_arm) != _neutral(some_arm) or (_neutral(none_arm) and _neutral(some_arm)):
                 if _neutral(some_arm) and not _neutral(none_arm):
                     R.violation(rule + ".O2", key, src(node)[:70], f"the contribution `{src(none_arm)[:40]}` is selected when `{name}` is None and the neutral constant when it is present: the term of a present factor is dropped", node.lineno)
